@@ -476,15 +476,26 @@ Proof.
 Qed.
 
 (* the nan special case *)
-Theorem parse_nan rest : parse_units ("nan" ++ rest) = DNanUnits (lstrip rest).
+Theorem parse_nan rest : parse_units ("nan " ++ rest) = DNanUnits (lstrip rest).
 Proof.
-  unfold parse_units. rewrite strip_prefix_app. reflexivity.
+  unfold parse_units.
+  assert (E : String.eqb ("nan " ++ rest) "nan" = false) by reflexivity.
+  rewrite E. rewrite strip_prefix_app. reflexivity.
 Qed.
 
-Theorem parse_not_nan body : strip_prefix "nan" body = None -> parse_units body = DUnits body.
+Theorem parse_not_nan body : body <> "nan" -> strip_prefix "nan " body = None -> parse_units body = DUnits body.
 Proof.
-  intros H. unfold parse_units. rewrite H. reflexivity.
+  intros Hne H. unfold parse_units. destruct (String.eqb body "nan") eqn:E.
+  - apply String.eqb_eq in E. contradiction.
+  - rewrite H. reflexivity.
 Qed.
+
+(* a unit whose name starts with "nan" is an ordinary unit (the pinned tree parsed "nanometer" as nan * "ometer") *)
+Theorem nano_units_are_units : parse_units "nanometer" = DUnits "nanometer"
+                               /\ parse_units "nanogram / second" = DUnits "nanogram / second".
+Proof. split; reflexivity. Qed.
+Theorem nano_units_refuted_pinned : parse_units_pinned "nanometer" = DNanUnits "ometer".
+Proof. reflexivity. Qed.
 
 Print Assumptions strip_prefix_app.
 Print Assumptions strip_prefix_some.
@@ -499,3 +510,5 @@ Print Assumptions roundtrip.
 Print Assumptions plain_unchanged.
 Print Assumptions parse_nan.
 Print Assumptions parse_not_nan.
+Print Assumptions nano_units_are_units.
+Print Assumptions nano_units_refuted_pinned.
